@@ -140,9 +140,18 @@ class MapEngine:
             if rng.random() < 0.35:
                 op["meta_override"] = {"spring constant":
                                        rng.choice([0.03, 0.11])}
+            if rng.random() < 0.2:
+                # documented setting: do not restrict the modality
+                op["modality_none"] = True
             if op["op"] == "group" and tgt == "folder":
                 op["op"] = "load_group"
             ops.append(op)
+        if rng.random() < 0.5:
+            # append a curve without spring constant / tip position to a
+            # populated group: must be refused and leave the group alone
+            ops.append({"op": "append_refused",
+                        "target": rng.randrange(len(files)),
+                        "innate_tip": rng.random() < 0.3})
         maps = [i for i, f in enumerate(files) if f["kind"] == "synmap" or (
             f["kind"] == "recorded" and "map" in f["file"]
             and "map0d" not in f["file"])]
@@ -158,6 +167,11 @@ class MapEngine:
                     kw["model_key"] = rng.choice(E_MODELS)
                 if kw.get("optimal_fit_edelta"):
                     kw["optimal_fit_num_samples"] = 5
+                if rng.random() < 0.12:
+                    # multi-pass fit whose last pass has no points
+                    kw = {"model_key": rng.choice(E_MODELS),
+                          "range_type": "relative cp",
+                          "range_x": [-1e-12, 1e-12]}
                 ops.append({"op": "fit", "curve": j, "kw": kw,
                             "prep": rng.random() < 0.8})
             elif r < 0.42:
@@ -358,6 +372,11 @@ class MapEngine:
                             continue
                         expect_refusal = not all(t[3] for t in tr)
                         exc = None
+                        import nanite.read as nread
+                        saved_mod = nread.DEFAULT_MODALITY
+                        if op.get("modality_none"):
+                            nread.DEFAULT_MODALITY = None
+                            feats["modality_none"] = True
                         try:
                             if kind == "load_group":
                                 g = nanite.load_group(
@@ -373,6 +392,8 @@ class MapEngine:
                                     meta_override=copy.deepcopy(override))
                         except MissingMetaDataError as e:
                             exc = e
+                        finally:
+                            nread.DEFAULT_MODALITY = saved_mod
                         oracle_checks += 1
                         if expect_refusal:
                             probes["curve without spring constant and tip "
@@ -400,6 +421,54 @@ class MapEngine:
                             break
                         log.append({"i": i, "op": kind, "n": len(g),
                                     "cb": cb})
+                    elif kind == "append_refused":
+                        import afmformats
+                        tp = paths[op["target"] % len(paths)]
+                        try:
+                            g = nanite.IndentationGroup(tp)
+                        except MissingMetaDataError:
+                            continue
+                        n0 = len(g)
+                        ids0 = [id(x) for x in g]
+                        cpath = write_nospring(
+                            scratch / f"append_{i}.h5",
+                            {"kind": "synthetic", "model": "hertz_para",
+                             "n": 60, "noise": 0.0, "seed": 1},
+                            op.get("innate_tip", False))
+                        cand = afmformats.load_data(
+                            cpath, modality="force-distance",
+                            data_classes_by_modality={
+                                "force-distance": nanite.Indentation})[0]
+                        feats["innate_tip"] = bool(op.get("innate_tip"))
+                        oracle_checks += 1
+                        try:
+                            g.append(cand)
+                            raised = False
+                        except MissingMetaDataError:
+                            raised = True
+                        if op.get("innate_tip"):
+                            if raised or len(g) != n0 + 1:
+                                violation = viol(
+                                    "L1", "append-refused-with-tip", feats,
+                                    "a curve with an innate tip position "
+                                    "was refused", i)
+                                break
+                        else:
+                            probes["append of a curve without spring "
+                                   "constant refused"] += 1
+                            if not raised:
+                                violation = viol(
+                                    "L1", "accepted-without-spring-constant",
+                                    feats, "append accepted a curve with "
+                                    "neither spring constant nor tip "
+                                    "position", i)
+                                break
+                            if len(g) != n0 or [id(x) for x in g] != ids0:
+                                violation = viol(
+                                    "L1", "refused-curve-in-group", feats,
+                                    f"the refused curve changed the group "
+                                    f"({n0} -> {len(g)} members)", i)
+                                break
                     elif kind == "qmap":
                         p = paths[op["file"] % len(paths)]
                         cb = [] if op.get("callback") else None
